@@ -138,6 +138,28 @@ func corpus() []*prog {
 	for v := 9; v <= 11; v++ {
 		out = append(out, aliasClashProgram(gal.NewRand(uint64(26+v)), fmt.Sprintf("c%d", 26+v), "corpus", v))
 	}
+	// c39, c40: embedded INSTANTIATED generic types (value and pointer, local and sibling) and a defined
+	// non-struct type, directly and two levels deep: the promoted methods mention the type arguments
+	p = newp("c39")
+	p.Structs = []gstruct{{Name: "Original", Embeds: []gembed{{T: named(self(p), "LocPair", basic("string"), named(pV2, "V")), Ptr: true},
+		{T: named(pPlain, "G", named(self(p), "Loc"))}, {T: named(self(p), "LocInts")}},
+		Methods: []gmeth{m("Own", nil, nil)}}}
+	p = newp("c40")
+	p.Structs = []gstruct{{Name: "E", Embeds: []gembed{{T: named(self(p), "LocG", ptr(named(pRen, "R")))}, {T: named(pPlain, "G", slice(named(pOdd, "Odd"))), Ptr: true}},
+		Methods: []gmeth{m("OfE", nil, nil)}},
+		{Name: "Original", Embeds: []gembed{{T: named(self(p), "E"), Ptr: true}, {T: named(self(p), "LocInts"), Ptr: true}}, Methods: []gmeth{m("Own", nil, nil)}}}
+	p.Targets = []string{"Original", "E"}
+	// c38: user names that look like "no name" or like something else: underscore-prefixed, predeclared
+	// identifiers, non-ASCII letters — all of them are kept
+	p = newp("c38")
+	p.Structs = []gstruct{{Name: "Original", Methods: []gmeth{
+		m("Unused", ps(par("_ctx", tCtx), par("_id", basic("int")), par("__", basic("string")), par("_", basic("bool"))),
+			ps(par("_0", basic("int")), par("_err", tErr))),
+		m("Predeclared", ps(par("len", basic("int")), par("nil", basic("string")), par("true", basic("bool")), par("string", basic("int")), par("iota", basic("int"))),
+			ps(par("error", basic("int")), par("any", tErr))),
+		m("Letters", ps(par("ñ", basic("int")), par("名前", basic("string")), par("_", basic("int")), par("Ωmega", slice(basic("byte")))), nil),
+		m("Mixed", ps(par("_arg0", basic("int")), par("_", basic("int")), par("x_", basic("int"))), ps(par("_", basic("int")), par("_ret1", tErr))),
+	}}}
 	// c7, c8: one method per regression-prone shape (see shapeProgram), fixed seeds
 	out = append(out, shapeProgram(gal.NewRand(7), "c7", "corpus"), shapeProgram(gal.NewRand(8), "c8", "corpus"))
 	return out
